@@ -106,6 +106,9 @@ type PrefixScanPlan struct {
 	Filter  *FilterExec
 	Prefix  string
 	iter    Cursor
+	// done is set once the scan has left the prefix region (or the
+	// cursor is exhausted): later calls must not read further keys
+	done bool
 }
 
 func NewPrefixScanPlan(s Storage, f *FilterExec, p string) Plan {
@@ -117,6 +120,7 @@ func NewPrefixScanPlan(s Storage, f *FilterExec, p string) Plan {
 }
 
 func (p *PrefixScanPlan) Init() (err error) {
+	p.done = false
 	p.iter, err = p.Storage.Cursor()
 	if err != nil {
 		return err
@@ -126,17 +130,19 @@ func (p *PrefixScanPlan) Init() (err error) {
 
 func (p *PrefixScanPlan) Next(ctx *ExecuteCtx) ([]byte, []byte, error) {
 	pb := []byte(p.Prefix)
-	for {
+	for !p.done {
 		key, val, err := p.iter.Next()
 		if err != nil {
 			return nil, nil, err
 		}
 		if key == nil {
+			p.done = true
 			break
 		}
 
 		// Key not have the prefix
 		if !bytes.HasPrefix(key, pb) {
+			p.done = true
 			break
 		}
 
@@ -162,7 +168,7 @@ func (p *PrefixScanPlan) Batch(ctx *ExecuteCtx) ([]KVPair, error) {
 		chooseIdxes = make([]int, 0, 2*PlanBatchSize)
 		bidx        = 0
 	)
-	for !finish {
+	for !finish && !p.done {
 		filterBatch = filterBatch[:0]
 		for i := 0; i < PlanBatchSize; i++ {
 			key, val, err := p.iter.Next()
@@ -170,12 +176,12 @@ func (p *PrefixScanPlan) Batch(ctx *ExecuteCtx) ([]KVPair, error) {
 				return nil, err
 			}
 			if key == nil {
-				finish = true
+				p.done = true
 				break
 			}
 			// Key not have the prefix
 			if !bytes.HasPrefix(key, pb) {
-				finish = true
+				p.done = true
 				break
 			}
 			filterBatch = append(filterBatch, NewKVP(key, val))
@@ -216,6 +222,9 @@ type RangeScanPlan struct {
 	Start   []byte
 	End     []byte
 	iter    Cursor
+	// done is set once the scan has passed End (or the cursor is
+	// exhausted): later calls must not read further keys
+	done bool
 }
 
 func NewRangeScanPlan(s Storage, f *FilterExec, start []byte, end []byte) Plan {
@@ -228,6 +237,7 @@ func NewRangeScanPlan(s Storage, f *FilterExec, start []byte, end []byte) Plan {
 }
 
 func (p *RangeScanPlan) Init() (err error) {
+	p.done = false
 	p.iter, err = p.Storage.Cursor()
 	if err != nil {
 		return err
@@ -242,17 +252,19 @@ func (p *RangeScanPlan) Init() (err error) {
 }
 
 func (p *RangeScanPlan) Next(ctx *ExecuteCtx) ([]byte, []byte, error) {
-	for {
+	for !p.done {
 		key, val, err := p.iter.Next()
 		if err != nil {
 			return nil, nil, err
 		}
 		if key == nil {
+			p.done = true
 			break
 		}
 
 		// Key is greater than End
 		if p.End != nil && bytes.Compare(key, p.End) > 0 {
+			p.done = true
 			break
 		}
 
@@ -277,7 +289,7 @@ func (p *RangeScanPlan) Batch(ctx *ExecuteCtx) ([]KVPair, error) {
 		chooseIdxes = make([]int, 0, 2*PlanBatchSize)
 		bidx        = 0
 	)
-	for !finish {
+	for !finish && !p.done {
 		filterBatch = filterBatch[:0]
 		for i := 0; i < PlanBatchSize; i++ {
 			key, val, err := p.iter.Next()
@@ -285,12 +297,12 @@ func (p *RangeScanPlan) Batch(ctx *ExecuteCtx) ([]KVPair, error) {
 				return nil, err
 			}
 			if key == nil {
-				finish = true
+				p.done = true
 				break
 			}
 			// Key is greater than End
 			if p.End != nil && bytes.Compare(key, p.End) > 0 {
-				finish = true
+				p.done = true
 				break
 			}
 			filterBatch = append(filterBatch, NewKVP(key, val))
